@@ -167,6 +167,14 @@ def run(repo: Repo, rep: Report, tier: str) -> None:
                   and any(isinstance(x, ast.Call) and call_name(x) == "bundle_gating_decider" for b in n.body for x in ast.walk(b))]
         rep.check(bool(arms19), "C02-R19", f"{fn19}: a bundle value gets the bundle gate", "isinstance(..., BundleRef) -> bundle_gating_decider" if arms19 else
                   "no arm for a bundle value: the gate is built as a scalar decider and nothing of the bundle comes out", f19.loc())
+    rep.rule("C02-R20", "the same holds for a wildcard row of a folded condition: `(all(b) < 150) && (k > 0)` is one multi-condition decider whose first row reads signal-everything; "
+             "the row for k reads a signal that travels to the same combinator, so the multi-condition placement has to ask for wire separation as the single-condition one "
+             "does (C02-R14) — otherwise k is counted as a member of b")
+    pmc20 = ep.methods["_place_multi_condition_decider"]
+    c20 = calls_in(pmc20.node, "create_and_add_placement")
+    asks20 = bool(c20) and kwarg(c20[0], "needs_wire_separation") is not None
+    rep.check(asks20, "C02-R20", "_place_multi_condition_decider separates wildcard rows from signal rows", "passes a separation flag" if asks20 else
+              "the multi-condition placement never asks for wire separation: `Signal r = (all(b) < 150) && (k > 0);` with k = 200 is 0 (k is counted as a member)", pmc20.loc(c20[0]) if c20 else pmc20.loc())
     rep.rule("C02-R14", "a wildcard compared with a signal does not count that signal: `any(b) CMP k` / `all(b) CMP k` is a decider whose first operand is signal-anything / "
              "signal-everything; the placement raises the separation flag for it, and the planner then brings the scalar in on green as it does for a bundle filter")
     pa = ep.methods["_place_arithmetic"]
